@@ -121,12 +121,33 @@ class _ClassLevelTest:
         self.known = {}
 
     def __call__(self, value):
-        cls = type(value)
+        # (a class passed as the value is told apart from other classes:
+        # type[...] members look at the class that was passed)
+        cls = value if isinstance(value, type) else type(value)
         try:
             return self.known[cls]
         except KeyError:
-            result = self.known[cls] = isinstance(value, self.t)
+            result = self.known[cls] = instancecheck(value, self.t)
             return result
+        except TypeError:  # pragma: no cover
+            # An unhashable class object
+            return instancecheck(value, self.t)
+
+
+def _member_tests(composite):
+    # The instance tests of the members of a union / intersection; members
+    # that only look at the class are worked out once per class
+    tests = composite.__dict__.get("_tests")
+    if tests is None:
+        from .dependent import is_dependent
+
+        tests = composite._tests = [
+            (lambda obj, t=t: instancecheck(obj, t))
+            if is_dependent(t)
+            else _ClassLevelTest(t)
+            for t in composite.types
+        ]
+    return tests
 
 
 class MetaMC(type):
@@ -477,7 +498,7 @@ class Union:
         return self.__is_supertype__(sub)
 
     def __instancecheck__(self, obj):
-        return any(instancecheck(obj, t) for t in self.types)
+        return any(test(obj) for test in _member_tests(self))
 
     def __eq__(self, other):
         return set(self.__args__) == set(other.__args__)
@@ -523,7 +544,7 @@ class Intersection:
         return self.__is_supertype__(sub)
 
     def __instancecheck__(self, obj):
-        return all(instancecheck(obj, t) for t in self.types)
+        return all(test(obj) for test in _member_tests(self))
 
     def __eq__(self, other):
         return set(self.__args__) == set(other.__args__)
